@@ -15,6 +15,7 @@ THEOREMS = {
     "C07": ["C07_open", "C07_index_parse", "C07_no_panic", "C07_record", "C07_bounded_index", "C07_bounded_noindex"],
     "C13": ["C13_truncation", "C13_truncated_header", "C13_inside_is_prefix", "C13_record_cut", "C13_fault", "C13_fault_open",
             "C13_short_reads"],
+    "C12": ["C12_fault_surfaces", "C12_finalize_any", "C12_retry", "C12_reachable", "C12_drop", "C12_chunking"],
     "C03": ["C03_record", "C03_decodes_conformant"],
     "C09": ["C09_finalize_irrelevant", "C09_files", "C09_finalize_complete", "C09_clean_finalize_silent"],
     "C10": ["C10_reject", "C10_erase"],
